@@ -5,7 +5,7 @@ package h_c26
 // C26 — requests are dispatched only to the registered method.
 //
 // Engine E3/E4: EVERY `:path` string over the alphabet {"/", "a", "b", "é"} of
-// at most N symbols (N=6; plus the empty path) is sent by a scripted raw HTTP/2
+// at most N symbols (N=6 quick, 7 thorough; plus the empty path) is sent by a scripted raw HTTP/2
 // client (wire.NewClientPeer) to a real grpc.Server (Serve on an in-memory
 // listener inside a synctest bubble) for every registry of c26Registries, with
 // and without an UnknownServiceHandler. Every registered method and the
@@ -50,6 +50,7 @@ import (
 	"google.golang.org/grpc/internal/verif/vk"
 	"google.golang.org/grpc/internal/verif/wire"
 	"google.golang.org/grpc/mem"
+	"google.golang.org/grpc/metadata"
 )
 
 // ---------------------------------------------------------------- codec
@@ -133,6 +134,7 @@ func c26Expect(reg c26Registry, unknown bool, path string) (kind, id string) {
 type c26Call struct {
 	ID         string
 	FullMethod string
+	Case       string // value of the request's x-case header: which request this run belongs to
 }
 
 type c26Ledger struct {
@@ -142,8 +144,12 @@ type c26Ledger struct {
 
 func (l *c26Ledger) add(id string, ctx context.Context) {
 	fm, _ := grpc.Method(ctx)
+	tag := "?"
+	if md, ok := metadata.FromIncomingContext(ctx); ok && len(md.Get("x-case")) == 1 {
+		tag = md.Get("x-case")[0]
+	}
 	l.mu.Lock()
-	l.calls = append(l.calls, c26Call{ID: id, FullMethod: fm})
+	l.calls = append(l.calls, c26Call{ID: id, FullMethod: fm, Case: tag})
 	l.mu.Unlock()
 }
 
@@ -237,22 +243,31 @@ func (o c26Obs) class() string {
 	return fmt.Sprintf("ran=[%s] status=%s", strings.Join(ids, ","), st)
 }
 
-// c26Case sends one request on the open connection and runs to quiescence.
-func c26Case(peer *wire.Peer, led *c26Ledger, streamID uint32, path string) c26Obs {
+// c26Group sends len(paths) requests on consecutive streams of the open
+// connection (each tagged with an x-case header so that handler runs are
+// attributed to their request independently of the path), runs to quiescence
+// once and returns one observation per request. stray holds handler runs that
+// belong to no request of the group.
+func c26Group(peer *wire.Peer, led *c26Ledger, firstSID uint32, paths []string) (obs []c26Obs, stray []c26Call) {
 	led.take()
 	from := len(peer.Log())
-	peer.WriteHeaders(streamID, [][2]string{
-		{":method", "POST"}, {":scheme", "http"}, {":path", path}, {":authority", "verif"},
-		{"content-type", "application/grpc"}, {"te", "trailers"},
-	}, false)
-	peer.WriteData(streamID, true, wire.GrpcMsg(false, []byte("q")))
+	for i, path := range paths {
+		sid := firstSID + uint32(2*i)
+		peer.WriteHeaders(sid, [][2]string{
+			{":method", "POST"}, {":scheme", "http"}, {":path", path}, {":authority", "verif"},
+			{"content-type", "application/grpc"}, {"te", "trailers"}, {"x-case", fmt.Sprint(sid)},
+		}, false)
+		peer.WriteData(sid, true, wire.GrpcMsg(false, []byte("q")))
+	}
 	synctest.Wait()
-	var o c26Obs
-	var data []byte
+	obs = make([]c26Obs, len(paths))
+	data := make([][]byte, len(paths))
 	for _, f := range peer.Log()[from:] {
-		if f.Stream != streamID {
+		if f.Stream < firstSID || (f.Stream-firstSID)%2 != 0 || int((f.Stream-firstSID)/2) >= len(paths) {
 			continue
 		}
+		i := int((f.Stream - firstSID) / 2)
+		o := &obs[i]
 		switch f.Type {
 		case "HEADERS":
 			if v, ok := wire.Field(f.Fields, ":status"); ok {
@@ -265,7 +280,7 @@ func c26Case(peer *wire.Peer, led *c26Ledger, streamID uint32, path string) c26O
 				o.Ended = true
 			}
 		case "DATA":
-			data = append(data, f.Data...)
+			data[i] = append(data[i], f.Data...)
 			if f.EndStream {
 				o.Ended = true
 			}
@@ -273,14 +288,24 @@ func c26Case(peer *wire.Peer, led *c26Ledger, streamID uint32, path string) c26O
 			o.RST, o.Ended = true, true
 		}
 	}
-	if len(data) >= 5 {
-		n := int(data[1])<<24 | int(data[2])<<16 | int(data[3])<<8 | int(data[4])
-		if 5+n <= len(data) {
-			o.Reply = string(data[5 : 5+n])
+	for i, d := range data {
+		if len(d) >= 5 {
+			n := int(d[1])<<24 | int(d[2])<<16 | int(d[3])<<8 | int(d[4])
+			if 5+n <= len(d) {
+				obs[i].Reply = string(d[5 : 5+n])
+			}
 		}
 	}
-	o.Calls = led.take()
-	return o
+	for _, c := range led.take() {
+		var sid uint32
+		if _, err := fmt.Sscanf(c.Case, "%d", &sid); err != nil || sid < firstSID || (sid-firstSID)%2 != 0 || int((sid-firstSID)/2) >= len(paths) {
+			stray = append(stray, c)
+			continue
+		}
+		i := int((sid - firstSID) / 2)
+		obs[i].Calls = append(obs[i].Calls, c)
+	}
+	return obs, stray
 }
 
 // c26Check compares one observation with the reference; returns "" or a
@@ -311,6 +336,9 @@ func c26Check(kind, id string, o c26Obs) (class, desc string) {
 
 // ---------------------------------------------------------------- enumeration
 
+// c26GroupSize requests are in flight between two quiescence points.
+const c26GroupSize = 16
+
 var c26Alphabet = []string{"/", "a", "b", "é"}
 
 // c26Paths returns every string of at most n alphabet symbols (shortest first,
@@ -338,8 +366,8 @@ type c26Replay struct {
 }
 
 // c26Batch runs the given paths against one fresh server + one fresh raw
-// connection inside one bubble (streams strictly one after the other, each run
-// to quiescence before the next starts).
+// connection inside one bubble, c26GroupSize concurrent streams at a time, each
+// group run to quiescence before the next starts.
 func c26Batch(t *testing.T, r *vk.Run, regIdx int, unknown bool, paths []string, stats *c26Stats) {
 	reg := c26Registries[regIdx]
 	synctest.Test(t, func(t *testing.T) {
@@ -358,20 +386,28 @@ func c26Batch(t *testing.T, r *vk.Run, regIdx int, unknown bool, paths []string,
 		peer.WriteSettings()
 		synctest.Wait()
 		sid := uint32(1)
-		for _, p := range paths {
-			kind, id := c26Expect(reg, unknown, p)
-			o := c26Case(peer, led, sid, p)
-			sid += 2
-			r.Eval("C26", 1)
-			stats.note(r, reg, unknown, p, kind, id, o)
-			if class, desc := c26Check(kind, id, o); class != "" {
-				key := fmt.Sprintf("%s/%s/unknown=%v/path=%q", class, reg.Name, unknown, p)
-				r.Violation("C26", key, fmt.Sprintf("registry %s unknown-handler=%v :path=%q expected %s %s; %s; observed %s; frames: %s",
-					reg.Name, unknown, p, kind, id, desc, o.class(), c26Tail(peer, sid-2)),
-					c26Replay{Registry: regIdx, Unknown: unknown, Path: p})
+		for lo := 0; lo < len(paths); lo += c26GroupSize {
+			grp := paths[lo:min(lo+c26GroupSize, len(paths))]
+			obs, stray := c26Group(peer, led, sid, grp)
+			if len(stray) != 0 {
+				r.Violation("C26", fmt.Sprintf("unattributable-handler-run/%s/unknown=%v/first-path=%q", reg.Name, unknown, grp[0]),
+					fmt.Sprintf("handler runs %v carry no x-case tag of the requests %q just sent", stray, grp), c26Replay{Registry: regIdx, Unknown: unknown, Path: grp[0]})
 			}
+			for i, p := range grp {
+				kind, id := c26Expect(reg, unknown, p)
+				o := obs[i]
+				r.Eval("C26", 1)
+				stats.note(r, reg, unknown, p, kind, id, o)
+				if class, desc := c26Check(kind, id, o); class != "" {
+					key := fmt.Sprintf("%s/%s/unknown=%v/path=%q", class, reg.Name, unknown, p)
+					r.Violation("C26", key, fmt.Sprintf("registry %s unknown-handler=%v :path=%q expected %s %s; %s; observed %s; frames: %s",
+						reg.Name, unknown, p, kind, id, desc, o.class(), c26Tail(peer, sid+uint32(2*i))),
+						c26Replay{Registry: regIdx, Unknown: unknown, Path: p})
+				}
+			}
+			sid += uint32(2 * len(grp))
 			if peer.Closed() {
-				r.EngineError("connection closed by the server after :path=%q (registry %s): %v", p, reg.Name, peer.Err())
+				r.EngineError("connection closed by the server after :path group starting %q (registry %s): %v", grp[0], reg.Name, peer.Err())
 				break
 			}
 		}
@@ -422,7 +458,7 @@ func (s *c26Stats) note(r *vk.Run, reg c26Registry, unknown bool, p, kind, id st
 func TestVerif_C26_Dispatch(t *testing.T) {
 	r := vk.Start(t, "c26_dispatch", "exploration", "C26")
 	defer r.Finish()
-	maxLen := r.Pick(6, 6)
+	maxLen := r.Pick(6, 7)
 	const batch = 96
 	r.Rule("C26", fmt.Sprintf("every :path string of <= %d symbols over {\"/\",\"a\",\"b\",\"é\"} (plus the empty path) x %d registries x {no unknown-service handler, unknown-service handler}; each case is one real RPC sent by a raw HTTP/2 client to a real grpc.Server, run to quiescence; a case is non-trivial if the path is well-formed or contains at least one slash (it then exercises the prefix test or the service/method split)", maxLen, len(c26Registries)))
 	r.Assume("C26", "malformed <=> the path does not match ^/.*/[^/]*$ (no leading slash, or no second slash); service = text between the leading and the LAST slash; for a malformed path only 'no handler runs' is demanded (the status is recorded, not judged)")
